@@ -203,8 +203,27 @@ def r02_3(ctx):
     ok = bool(nt) and all(cfg.must_pass([n], [cfg.exit], nt, skip_labels=('x',))[0] for (n, c) in apps
                           if not any(q.inside(st, n, w.stmt.body) for w in drains))
     ctx.ob('R02.3', 'IMapIterator._set:consumer-woken-after-release', ok, st, None, 'self._cond.notify() after releasing')
+    # The consumer waits once and reads "woken, nothing to take, not finished" as a timeout: so a wake-up must
+    # follow a release or the end of the sequence -- unless the consumer re-tests in a loop around the wait.
+    nx0 = m.func('pool:IMapIterator.next')
+    waits = q.nodes_calling(nx0, 'self._cond.wait')
+    q.need(waits, 'IMapIterator.next: wait on the condition not found')
+    loops_nx = [w for w in nx0.cfg.where(lambda x: x.kind == 'loop') if isinstance(w.stmt, ast.While)]
+    rechecks = all(any(q.inside(nx0, wn, w.stmt.body) for w in loops_nx) for wn in waits)
+    done = q.eq_text('self._index', 'self._length')
+    for cls_ in [m.cls('pool:IMapIterator')] + list(m.subclasses(m.cls('pool:IMapIterator'), strict=True)):
+        for name, mf in sorted(cls_.methods.items()):
+            rel = q.nodes_calling(mf, 'self._items.append')
+            for nn in q.nodes_calling(mf, 'self._cond.notify'):
+                ok = rechecks or q.has_guard(mf, nn, done, True) or \
+                    mf.cfg.must_pass([mf.cfg.entry], [nn], rel, skip_labels=('x',))[0]
+                ctx.ob('R02.3', '%s.%s:no-wake-up-without-a-release#%d' % (cls_.name, name, q.line(nn) - mf.node.lineno),
+                       ok, mf, nn,
+                       'every path to notify() released an item or ends the sequence' if ok else
+                       'the consumer is woken although nothing was released: next() waits once and raises '
+                       'TimeoutError when woken with nothing to take')
     us = m.func('pool:IMapUnorderedIterator._set')
-    a2 = {n.id for (n, c) in q.calls(us, 'self._items.append') if ast.unparse(c.args[0]) == us.positional_params()[2]}
+    a2 ={n.id for (n, c) in q.calls(us, 'self._items.append') if ast.unparse(c.args[0]) == us.positional_params()[2]}
     i2 = {dn.id for (dn, t, v) in q.assigns(us, 'self._index') if isinstance(dn.ast, ast.AugAssign)
           and ast.unparse(dn.ast.value) == '1'}
     r1 = us.cfg.count_range([us.cfg.entry], [us.cfg.exit], lambda n: n.id in a2, skip_labels=('x',))
@@ -325,14 +344,19 @@ def run(ctx):
     r02_4(ctx)
     r02_5(ctx)
     r12_1(ctx, rule='R02.6', modules=('einfo',), floor=5)
-    from .c12 import r12_5
+    from .c12 import r12_5, r12_2
     r12_5(ctx)
+    r12_2(ctx)
     ctx.note('equality with a sequential map for all functions and inputs, pickling fidelity and which error a '
              'failed map reports are runtime facts and are not decided')
 
 
 _P = 'billiard/pool.py'
 MUTANTS = [
+    ('wake-up-for-a-parked-item', _P, "                self._cond.notify()\n            else:\n                self._unsorted[i] = obj\n",
+     "            else:\n                self._unsorted[i] = obj\n            self._cond.notify()\n", 'R02.3'),
+    ('wake-up-when-parking', _P, "                self._unsorted[i] = obj\n", "                self._unsorted[i] = obj\n                self._cond.notify()\n", 'R02.3'),
+    ('traceback-depth-not-advanced', 'billiard/einfo.py', "depth + 1", "depth", 'R12.2'),
     ('slice-off-by-one', _P, "self._value[i * self._chunksize:(i + 1) * self._chunksize] = result", "self._value[i * self._chunksize:(i + 1) * self._chunksize - 1] = result", 'R02.1'),
     ('slice-by-index-only', _P, "self._value[i * self._chunksize:(i + 1) * self._chunksize] = result", "self._value[i:(i + 1)] = result", 'R02.1'),
     ('batches-other-size', _P, "        task_batches = Pool._get_tasks(func, iterable, chunksize)\n        result = MapResult(self._cache, chunksize, len(iterable), callback,",
